@@ -100,7 +100,7 @@ EXTRA = {
  "C04": " Tolerance histories: the same functions on objects whose tolerance was changed by set_tolerance earlier in the history. Object histories (10 observers / in-place mutators, depth 3-4) against fresh objects. pair_history: two objects related by copying, all histories to depth 3 (4) applied to either.",
  "C05": " Shared-object histories: one obliquity / latitude object re-used over the whole alphabet and updated in place between calls. Body exactly at a pole for the position angle; observer latitudes within 1e-7 deg of the poles; call pairs whose parameter differs by 3e-9..1e-6 deg (both orders).",
  "C06": " Near-epoch histories (a call preceded by a call with epochs 1e-3..1e-2 day away); orbital elements incl. i = 0, 90, 180 judged by rotating the orbit normal and perihelion direction. Milli-arcsecond proper motions; stars carried across a pole; arguments carrying a coarse comparison tolerance. Stars arriving 1e-9..1e-6 deg from the final pole (constructed through the inverse reference).",
- "C07": " Calls one second and one minute apart (continuity and the aberration identity on consecutive calls). Every table term at its own zero crossing (+-1, +-3 ulp): quick 2 266 terms of the short series, thorough all 31 577 terms x 3 eras. fk5_zero_crossings: zero crossings of B, cos l' - sin l', cos l' + sin l' narrowed to adjacent doubles. row_coincidences (equal arguments of consecutive series rows); order_sum_zeros (zero crossings of every order sum narrowed to adjacent doubles). Horner partial sums; nutation_zeros.",
+ "C07": " Calls one second and one minute apart (continuity and the aberration identity on consecutive calls). Every table term at its own zero crossing (+-1, +-3 ulp): quick 2 266 terms of the short series, thorough all 31 577 terms x 3 eras. fk5_zero_crossings: zero crossings of B, cos l' - sin l', cos l' + sin l' narrowed to adjacent doubles. row_coincidences (equal arguments of consecutive series rows); order_sum_zeros (zero crossings of every order sum narrowed to adjacent doubles). Horner partial sums; nutation_zeros. Thorough: double_zero_rows - all 1.2e9 row zeros enumerated (numpy, tooling interpreter), 47 709 shortlisted instants checked.",
  "C08": " Every date form with and without utc / leap_seconds keywords. The library's own equinox / solstice instants +-{0..600} min (14 years x 4 seasons); coarse RA/dec per coordinate; dense coarse lattice at the ends of 1800-2200. sun_latitude_zeros; call_pairs (all ordered pairs of 19 years x 4 functions x 3 date forms in forked processes). special_instants (R = 1 AU, longitude 90 deg from the node of the ecliptics) with an apparent-minus-geometric oracle.",
  "C09": " Close approaches down to 0.002 AU; histories of ONE Minor and ONE Epoch re-used through set() (all sequences to depth 3 / 4 over 9 operations, two-body oracle after each step); one Epoch re-set between (date, body) planet queries. Own Sun vector from the Earth's J2000 position; perihelion dates -1990..3990; bystander objects; sequences 2 s apart at 0.002 AU; planets at their conjunctions / oppositions; thorough: 5.75 M positions in the 0.90-0.98 eccentricity band. minor_polar_directions; minor_convergence_edge (edge of the near-parabolic series located by bisection, instants within 3 light times of it).",
  "C10": " Thorough: independent TLA+ model (models/LeapSeconds.tla) enumerated by TLC, all 1 812 dumped states replayed. API histories: all sequences (depth 3 / 4) over 10 operations of the leap-second API, the visible history (58 values) compared with the IERS list after each step; overrides with and without utc=True. Nine argument forms x {utc, override} per state. Overrides at civil midnight and noon with get_date read-back; bare-JDE, set(jde) and Epoch-object forms under the override.",
